@@ -962,6 +962,53 @@ func c13SafeName(r *rand.Rand) string {
 	}
 }
 
+var c13RecipeSeq int
+
+var c13AllTools = []string{"go", "cargo", "rustc", "gcc", "g++", "cc", "clang", "cmake", "npm", "npx", "yarn", "pnpm", "node", "dotnet", "msbuild", "nuget", "python", "python3", "pip", "pip3",
+	"pytest", "mvn", "gradle", "./gradlew", "java", "javac", "bundle", "gem", "rake", "ruby", "php", "composer", "docker", "docker-compose", "kubectl", "kustomize", "helm", "terraform",
+	"ansible", "ansible-playbook", "git", "make", "$(MAKE)", "webpack", "vite"}
+
+// c13ToolsOf: the programs one runs in a project of that type.
+func c13ToolsOf(t pctx.ProjectType) []string {
+	switch t {
+	case pctx.ProjectTypeGo:
+		return []string{"go"}
+	case pctx.ProjectTypeRust:
+		return []string{"cargo", "rustc"}
+	case pctx.ProjectTypeNode:
+		return []string{"npm", "yarn", "node", "npx", "pnpm"}
+	case pctx.ProjectTypeDotNet:
+		return []string{"dotnet", "msbuild", "nuget"}
+	case pctx.ProjectTypePython:
+		return []string{"python", "python3", "pip", "pytest"}
+	case pctx.ProjectTypeJava:
+		return []string{"mvn", "gradle", "./gradlew", "java", "javac"}
+	case pctx.ProjectTypeRuby:
+		return []string{"bundle", "gem", "rake", "ruby"}
+	case pctx.ProjectTypePHP:
+		return []string{"php", "composer"}
+	case pctx.ProjectTypeC:
+		return []string{"gcc", "cc", "clang", "cmake", "g++"}
+	case pctx.ProjectTypeDocker:
+		return []string{"docker", "docker-compose"}
+	case pctx.ProjectTypeKubernetes:
+		return []string{"kubectl", "kustomize", "helm"}
+	case pctx.ProjectTypeTerraform:
+		return []string{"terraform"}
+	case pctx.ProjectTypeAnsible:
+		return []string{"ansible", "ansible-playbook"}
+	case pctx.ProjectTypeGit:
+		return []string{"git"}
+	case pctx.ProjectTypeMake:
+		return []string{"make", "$(MAKE)"}
+	case pctx.ProjectTypeWebpack:
+		return []string{"webpack", "npx"}
+	case pctx.ProjectTypeVite:
+		return []string{"vite", "npx"}
+	}
+	return nil
+}
+
 type c13DirInfo struct {
 	Mode        string
 	PkgClass    string // "", valid, noscripts, broken
@@ -1037,6 +1084,39 @@ func c13GenDir(r *rand.Rand) ([]c13Ent, c13DirInfo) {
 			} else {
 				add(c13Ent{Name: c13SafeName(r)})
 			}
+		}
+	case m >= 14 && m < 16:
+		// one or two markers beside a Makefile whose recipes run the tools of the trade - the markers' own and others: whatever
+		// the recipes say, a type is still reported once
+		info.Mode = "recipes"
+		var tools []string
+		c13RecipeSeq++
+		for i, n := 0, 1+r.Intn(2); i < n; i++ {
+			mk := anyMarker()
+			if i == 0 { // every marker name in turn
+				mk = c13ExactNames[c13RecipeSeq%len(c13ExactNames)]
+			}
+			addMarker(mk)
+			tools = append(tools, c13ToolsOf(c13MustType(mk))...)
+		}
+		if r.Intn(2) == 0 {
+			for i, n := 0, 1+r.Intn(2); i < n; i++ {
+				tools = append(tools, c13AllTools[r.Intn(len(c13AllTools))])
+			}
+		}
+		var mk []string
+		mk = append(mk, "all: build test")
+		for _, tg := range []string{"build", "test", "release"} {
+			mk = append(mk, tg+":")
+			for i, n := 0, 1+r.Intn(3); i < n && len(tools) > 0; i++ {
+				mk = append(mk, "\t"+[]string{"", "@", "-", "+", "@-"}[r.Intn(5)]+tools[r.Intn(len(tools))]+" "+[]string{"build", "test ./...", "run x", "--version", "install"}[r.Intn(5)])
+			}
+		}
+		e := c13Ent{Name: []string{"Makefile", "makefile"}[r.Intn(2)], Data: []byte(strings.Join(mk, "\n") + "\n")}
+		if !have["Makefile"] && !have["makefile"] {
+			info.HasMakefile = true
+			info.MakeLines += len(mk)
+			add(e)
 		}
 	case m < 16:
 		info.Mode = "multi"
@@ -1414,6 +1494,9 @@ func c13EngineAnalyzer(ctx *Ctx) {
 			ctx.R.Path("package-json-noscripts", 1)
 		case "broken":
 			ctx.R.Path("package-json-broken", 1)
+		}
+		if info.Mode == "recipes" {
+			ctx.R.Path("directories-whose-makefile-runs-the-tools-of-its-markers", 1)
 		}
 		if info.HasMakefile {
 			ctx.R.Path("makefile", 1)
